@@ -27,6 +27,8 @@ def run(ctx):
     X.rule_D1c_complete(ctx, typer, "MermaidExporter")
     ctx.floor("D1c", 2)
     X.rule_D3_escape(ctx, typer, "MermaidExporter", quoted=False)
+    from .common import rule_format_templates
+    rule_format_templates(ctx, typer, [f for f in ctx.p.all_funcs if f.module.relpath in FILES], "D6")
     X.rule_D4_ids(ctx, typer, "MermaidExporter")
     X.rule_D5_structure(ctx, typer, "MermaidExporter", closing=None, writer="to_file")
     X.rule_init_stores(ctx, "MermaidExporter")
